@@ -9,6 +9,23 @@ def with_appended_new_lines(lines: Sequence[str]) -> List[str]:
     ]
 
 
+def lines_with_line_ends(s: str) -> List[str]:
+    """
+    Splits a string into lines the way iteration over a text file does:
+    lines are ended by new-line ('\\n') only, and the line ends are kept.
+
+    (str.splitlines also splits at form feed, carriage return, NEXT LINE, ...,
+    which would make a text have different lines depending on how it is accessed.)
+    """
+    if not s:
+        return []
+    ret_val = with_appended_new_lines(s.split('\n'))
+    last = ret_val.pop()
+    if last != '\n':
+        ret_val.append(last[:-1])
+    return ret_val
+
+
 def lines_content(lines: Sequence[str]) -> str:
     return '' \
         if not lines \
